@@ -2311,6 +2311,11 @@ class Walker:
                         if lit is not None and lit[0] == "dict":
                             return lit  # a small dispatch table of another module
                 return ("mod", f"{base[1]}.{e.attr}")
+            if base[0] == "K" and (base[1], e.attr) in getattr(self.repo, "enum_alias", {}):
+                nm = self.repo.enum_alias[(base[1], e.attr)]  # c.Color.WHITE is c.WHITE
+                return self.subst.get(("K", nm), ("K", nm))
+            if base[0] == "K" and e.attr == "value" and base[1] in getattr(self.repo, "enum_alias", {}).values():
+                return base  # the integer an IntEnum member is
             if base[0] == "call" and base[1] == ("mod", "struct.Struct") and len(base[2]) == 1 and e.attr == "size":
                 return ("call", ("mod", "struct.calcsize"), base[2], ())  # struct.Struct(fmt).size
             if isinstance(e.ctx, ast.Load) and e.attr.isupper() and (
@@ -2385,6 +2390,12 @@ class Walker:
                 d, l, _ = tab[2][0]
                 if not (d[0] == "call" and d[1] in (("builtin", "zip"), ("builtin", "enumerate"), ("builtin", "range"))):
                     return plug_back(tab[1], ("iter", d, l), ("idx", d, ix))
+            # a column of the pre-computed matrix read at a row: M[:, b][a] is M[a][b]
+            full = ("slice", None, None, None)
+            if base[0] == "idx" and base[2][0] == "tuple" and len(base[2][1]) == 2 and base[2][1][0] == full \
+                    and base[2][1][1][0] not in ("slice", "tuple") and ix[0] not in ("slice", "tuple") \
+                    and isinstance(e.ctx, ast.Load) and _matrix_rooted(("idx", base[1], ix)) and base[1][0] != "idx":
+                return ("idx", ("idx", base[1], ix), base[2][1][1])
             return ("idx", base, ix)
         if isinstance(e, ast.Call):
             return self.call(e, env)
@@ -2724,6 +2735,9 @@ class Walker:
         if fn == ("builtin", "len") and len(args) == 1 and not kwargs and args[0][0] == "listcomp" \
                 and len(args[0][2]) == 1 and not args[0][2][0][2]:
             args = (args[0][2][0][0],)
+        # Color(x) on an IntEnum of the constants module is the member equal to x (an error for any other x)
+        if fn[0] == "K" and len(args) == 1 and not kwargs and any(c0 == fn[1] for c0, _ in getattr(self.repo, "enum_alias", {})):
+            return args[0]
         # rec._replace(field=v) on a NamedTuple record known field by field: the record with that field exchanged
         if fn[0] == "attr" and fn[2] == "_replace" and fn[1][0] == "tuple" and not args and kwargs and all(k != "**" for k, _ in kwargs):
             cands = [names for names in all_named_tuples(self.repo) if len(names) == len(fn[1][1]) and all(k in names for k, _ in kwargs)]
@@ -3178,6 +3192,83 @@ def substitute_view(w, mapping: Dict[Term, Term]):
     for g, src in list(w.guard_src.items()):
         view.guard_src.setdefault(R(g), src)
     return view
+
+
+def settle_optional_minima(w) -> int:
+    """`best = None` before a scan and every test of it in the scan of the form `best is None or x < best` (or the negation
+    `best is not None and best <= x`): the running minimum starts at "nothing yet", which every candidate beats.  For finite
+    candidates that is a minimum that starts at FLOAT_MAX (x < FLOAT_MAX holds for each of them) - the spelling the scan rules
+    know.  The None tests are dropped and the start value replaced, in place; a loop that tests `best is None` in any other
+    way is left alone.  Returns the number of variables rewritten."""
+    import dataclasses
+    done = 0
+    for li in list(w.loops.values()):
+        for v, (init, end) in list(li.carried.items()):
+            if init != ("const", None):
+                continue
+            phi = ("phi", li.lid, v)
+            N = ("cmp", "is", phi, ("const", None))
+            NN = ("cmp", "is not", phi, ("const", None))
+            state = {"ok": True, "n": 0}
+
+            def orders(t):
+                return t[0] == "cmp" and t[1] in ("<", "<=") and phi in (t[2], t[3])
+
+            def R(t):
+                if t is None or not isinstance(t, tuple) or not t:
+                    return t
+                if t == N or t == NN:
+                    state["ok"] = False  # a None test on its own
+                    return t
+                if t[0] in ("or", "and") and len(t) == 2 and isinstance(t[1], tuple) and ((N if t[0] == "or" else NN) in t[1]):
+                    rest = tuple(R(x) for x in t[1] if x != (N if t[0] == "or" else NN))
+                    if not any(orders(x) for x in rest):
+                        state["ok"] = False
+                        return t
+                    state["n"] += 1
+                    return rest[0] if len(rest) == 1 else (t[0], rest)
+                return tuple(R(x) if isinstance(x, tuple) else x for x in t)
+
+            def RG(guards):
+                # a dominating `best is not None` next to an ordering test of best (the two halves of a failed
+                # `best is None or x < best`) says nothing once the start value is a number
+                out = []
+                for g, pol in guards:
+                    if (g == N and not pol) or (g == NN and pol):
+                        if any(orders(g2) for g2, _ in guards):
+                            state["n"] += 1
+                            continue
+                        state["ok"] = False
+                    out.append((R(g), pol))
+                return tuple(out)
+
+            new_events = [dataclasses.replace(e, target=R(e.target), value=R(e.value), args=tuple(R(a) for a in (e.args or ())),
+                                              kwargs=tuple((k, R(x)) for k, x in (e.kwargs or ())),
+                                              guards=RG(e.guards)) for e in w.events]
+            new_loops = {}
+            for lid, l2 in w.loops.items():
+                new_loops[lid] = (R(l2.cond), R(l2.domain), RG(l2.guards),
+                                  {n: (R(a), R(b)) for n, (a, b) in l2.carried.items()})
+            if state["n"] == 0:
+                # `not best or x < best`: "nothing yet" tested by truthiness, which a best of exactly 0 also is
+                truthy = [e for e in w.events for g, _ in e.guards
+                          if (g[0] == "or" and ("not", phi) in g[1] and any(orders(x) for x in g[1]))
+                          or (g == phi and any(orders(g2) for g2, _ in e.guards))]
+                if truthy:
+                    w.__dict__.setdefault("truthy_optional", []).append((v, li.lid, truthy[0]))
+            if not state["ok"] or state["n"] == 0:
+                continue
+            new_src = {R(g): src for g, src in w.guard_src.items() if g not in (N, NN)}
+            w.events[:] = new_events
+            for lid, (c2, d2, g2, car) in new_loops.items():
+                l2 = w.loops[lid]
+                l2.cond, l2.domain, l2.guards, l2.carried = c2, d2, g2, car
+            for g, src in new_src.items():
+                w.guard_src.setdefault(g, src)
+            a0, b0 = w.loops[li.lid].carried[v]
+            w.loops[li.lid].carried[v] = (("K", "FLOAT_MAX"), b0)
+            done += 1
+    return done
 
 
 def settle_lazy_inits(w) -> int:
